@@ -112,6 +112,14 @@ func buildEcho(cs *caseState, sp godi.Provider) http.Handler {
 	})
 	e.GET(routePath(RouteNoScope), route(hCtrl))
 	s := e.Group("/s", godiecho.ScopeMiddleware(sp, so...))
+	// a second, differently configured ScopeMiddleware and Handle in the same process
+	var so2 []godiecho.Option
+	for i := 0; i <= o.NMW; i++ {
+		pos := foreignMW + i
+		so2 = append(so2, godiecho.WithMiddleware(func(sc godi.Scope, c echo.Context) error { return look(c).onMW(pos, sc) }))
+	}
+	d := e.Group("/d", godiecho.ScopeMiddleware(sp, so2...))
+	d.GET("/"+RouteCtrl, godiecho.Handle(func(k *Ctrl, c echo.Context) error { return c.NoContent(http.StatusOK) }, godiecho.WithPanicRecovery(!o.Recovery)))
 	s.GET("/"+RouteCtrl, route(hCtrl))
 	s.GET("/"+RoutePlain, route(nil))
 	s.GET("/"+RouteUnreg, route(hUnreg))
